@@ -136,6 +136,8 @@ class Check:
         if sub == "list":
             case["variant"] = rng.choice(["plain", "plain", "where", "order", "limit", "where_limit", "order_limit"])
             case["N"] = rng.randint(1, 12)
+            case["maxd"] = rng.choice([0, 0, 0, 1, 2, 3])
+            case["maxword"] = rng.choice(["maxdepth", "depth"])
             if case["variant"] == "plain" and rng.random() < 0.3:
                 # a password-protected member that is not the last one: it cannot be opened (its own row is optional),
                 # the members stored after it are listed all the same
@@ -245,7 +247,9 @@ class Check:
     def eval_list(self, case, ctx, nm):
         world, top = case["world"], case["top"]
         cols = ["path", "name", "size", "is_dir", "modified", "mode", "user_exec", "other_read", "suid"]
-        fromc = " from %s %s" % (top, case["mode"])
+        maxd = case.get("maxd") or 0
+        # a depth limit: an archive on the last level of the window is in the window, and so are its members
+        fromc = " from %s %s" % (top, case["mode"]) + ((" %s %d" % (case.get("maxword", "maxdepth"), maxd)) if maxd else "")
         arc = " " + case["arcword"]
         var = case["variant"]
         tail = {"plain": "", "where": " where size > 9", "order": " order by size desc, path", "limit": " limit %d" % case["N"],
@@ -272,6 +276,9 @@ class Check:
             rows0 = r0.rows(len(cols))
             rows1 = r1.rows(len(cols))
             members = self.member_rows(world, top, nm, exts)
+            if maxd:
+                pre_ = lz_path("[" + top + "/")
+                members = [m for m in members if m[0].startswith(pre_) and m[0][len(pre_):m[0].index(b"] ")].count(b"/") + 1 <= maxd]
             if var in ("where", "where_limit"):
                 members = [m for m in members if int(m[2]) > 9]
             if var == "order_limit":
@@ -341,7 +348,7 @@ class Check:
             # `archives` is an option of one root: with two roots of which only one carries it, members come from that root alone
             subs = sorted(n["path"] for n in world["nodes"] if n["type"] == "dir" and "/" in n["path"] and n["path"].rsplit("/", 1)[0] == top
                           and not any(0xDC80 <= ord(ch) <= 0xDCFF for ch in n["path"]) and gen_plain(n["path"]))
-            if var == "plain" and not viols and len(subs) >= 2:
+            if var == "plain" and not viols and len(subs) >= 2 and not maxd:
                 d1, d2 = subs[0], subs[-1]
                 for with_arc, other in ((d1, d2), (d2, d1)):
                     first = case["N"] % 2 == 0
